@@ -226,6 +226,11 @@ RANGE_MARKERS = ('outside of valid range', 'Error: Parameter given')
 def task(payload):
     res = check.new_result()
     fam_id, lines = payload['fam_id'], payload['lines']
+    if payload.get('basefail'):
+        res['execs'] += 1
+        check.fail(res, f'family/base_not_accepted/{fam_id}', f'the base input of family {fam_id} (all of its values are inside their documented ranges and it is read without error on the '
+                   f'pinned tree) can no longer be read: {payload["basefail"]}')
+        return res
     last = None
     held = {}     # name -> list of (label, typed, module, held)
     for name, value, kind, label, ptype in payload['probes']:
@@ -299,7 +304,9 @@ def plan(tier, seed):
     for fam_id, lines in family_list(tier):
         tag = runner.fork_exec(discover, (fam_id, lines), timeout=300)
         if tag[0] != 'ok':
-            raise RuntimeError(f'discovery failed for family {fam_id}: {tag[1]}\n{tag[2] if len(tag) > 2 else ""}')
+            # every family base is an accepted input on the pinned tree: a base that can no longer be read is reported by the task, not raised here
+            P.append({'fam_id': fam_id, 'lines': lines, 'probes': [], 'basefail': f'{tag[1]}'[:300]})
+            continue
         params = tag[1]['params']
         probes = []
         for name in sorted(params):
